@@ -50,6 +50,7 @@ def check(ctx) -> None:
     r107(ctx)
     r108(ctx)
     r109(ctx)
+    r1010(ctx)
 
 
 def r101(ctx) -> None:
@@ -643,3 +644,79 @@ def r109(ctx) -> None:
                     f'set)')
     if n < 2:
         raise AnchorError(f'only {n} mode.apply() call(s) found in update()')
+
+
+def r1010(ctx) -> None:
+    """RFC 3501 9 (seq-range): "2:4 and 4:2 are equivalent", and "*" is the
+    largest number in use.  A range is therefore empty only when its LOWER
+    end is above the maximum; a test of one written end (`left > max`)
+    drops `500:103`, `UIDNEXT:*` and `9:2`, which address the last
+    messages."""
+    R = ctx.rule('R10.10', 'a sequence range is refused as empty only by its '
+                 'lower end', 1)
+    ss = ctx.proj.cls('pymap/parsing/specials/sequenceset.py', 'SequenceSet')
+    f = ss.own_method('_get_range')
+    if f is None:
+        raise AnchorError('SequenceSet._get_range vanished')
+    cfg = cfg_of(f)
+    # the two ends of a range element
+    ends = set()
+    for st in walk_local(f.node):
+        if isinstance(st, ast.Assign) and isinstance(st.targets[0],
+                                                     ast.Tuple) and \
+                len(st.targets[0].elts) == 2 and all(
+                    isinstance(t, ast.Name) for t in st.targets[0].elts) \
+                and isinstance(st.value, ast.Name) and \
+                st.value.id in f.params():
+            ends = {t.id for t in st.targets[0].elts}
+    if len(ends) != 2:
+        R.undecided(f, f.node, 'range ends', 'no `left, right = elem` found')
+        return
+    empties = [n for n in cfg.find(lambda n: isinstance(n.stmt, ast.Return))
+               if isinstance(n.stmt.value, ast.Tuple)
+               and not n.stmt.value.elts]
+    n_ = 0
+    for node in empties:
+        for t in cfg.nodes:
+            if t.kind != 'test' or not isinstance(t.stmt.test, ast.Compare):
+                continue
+            if not (cfg.controlled_by(node, t, 't')
+                    or cfg.controlled_by(node, t, 'f')):
+                continue
+            c = t.stmt.test
+            sides = [c.left] + c.comparators
+            if not any(txt(x) == 'max_value' for x in sides):
+                continue
+            other = [x for x in sides if txt(x) != 'max_value'][0]
+            # does the compared value depend on the range ends at all?
+            def tdeps(e, depth=0) -> set:
+                out = {x.id for x in ast.walk(e) if isinstance(x, ast.Name)}
+                if depth < 4:
+                    for x in list(out):
+                        for _, v in local_assigns(f, x):
+                            if v is not None and not isinstance(
+                                    v, ast.AugAssign):
+                                out |= tdeps(v, depth + 1)
+                return out
+            deps = tdeps(other)
+            if not (deps & ends):
+                continue             # the single-number branch
+            n_ += 1
+            low = any(isinstance(v, ast.Call) and call_name(v) == 'min'
+                      and len(v.args) == 2
+                      and ends <= (tdeps(v.args[0]) | tdeps(v.args[1]))
+                      and tdeps(v.args[0]) & ends != tdeps(v.args[1]) & ends
+                      for v in resolve_local(f, other))
+            R.check(low, f, t.stmt,
+                    '_get_range: the emptiness test of a range is on '
+                    'min(left, right)',
+                    f'`{txt(c)}` decides that a range is empty from '
+                    f'`{txt(other)}`, which is not the lower of the two '
+                    f'ends: a range whose first-written end is above the '
+                    f'maximum (`UID FETCH 105:*` with highest UID 104, '
+                    f'`500:103`, `COPY 9:2`) addresses nothing, though it '
+                    f'covers the last messages', 'min(left, right)')
+    if n_ == 0:
+        R.undecided(f, f.node, 'range emptiness test',
+                    'no comparison of a range end with max_value controls '
+                    'an empty return')
